@@ -557,8 +557,10 @@ func coalesceIsoCmd(args []string) int {
 		trace++
 		w.write(map[string]interface{}{"k": "reset", "trace": trace})
 		pool := make([][]*auparse.AuditMessage, ngroups+1)
+		specs := make([][]recSpec, ngroups+1)
 		for g := 1; g <= ngroups; g++ {
-			pool[g] = mkMsgs(pickGroup(), 1490137971, 11, uint32(100+g))
+			specs[g] = pickGroup()
+			pool[g] = mkMsgs(specs[g], 1490137971, 11, uint32(100+g))
 		}
 		var events []*aucoalesce.Event
 		for _, op := range ops {
@@ -571,6 +573,11 @@ func coalesceIsoCmd(args []string) int {
 				}()
 				switch op.Op {
 				case "coalesce":
+					if rng.Intn(3) == 0 {
+						// the same records parsed afresh: what they report, and what they coalesce to, does not depend on
+						// what was parsed or coalesced in between (records that fail to parse included)
+						pool[op.Group] = mkMsgs(specs[op.Group], 1490137971, 11, uint32(100+op.Group))
+					}
 					ev, err := aucoalesce.CoalesceMessages(pool[op.Group])
 					if err != nil || ev == nil {
 						ret = "err"
